@@ -107,6 +107,7 @@ def run(ctx: Ctx):
     rules.rule_callers(ctx, "D5", "transition_previous_to_next",
                        lambda s: "default_update / apply_instructions" if (s.func in (du, ai) or (s.func is not None and s.func.qualname.startswith("apply_instructions."))) else None,
                        "transitions are performed only by default_update and apply_instructions", 2)
+    ctx.attempt(rules.rule_once_each, ctx, "D5", fam, {ai.params[2]}, "a transition performed twice returns the old plug twice and takes the new one twice", "DU.once-each", 2)
     step_vehicle_rule(ctx)
     # the vehicle-update phase threads its state: what one vehicle's update produced is what the next vehicle is stepped on, and a failed
     # update keeps what the earlier vehicles of the step did (a reducer that falls back to the phase's initial state undoes them all)
